@@ -22,12 +22,15 @@ where
     set_budget(0);
     let w1 = Win::of(bump.stats().current_chunk().unwrap());
     // two earlier blocks: `a0` stays live, `b` (the newest) may be deallocated inside the region
-    let la0 = any_layout(3, 0);
+    // (with an outer minimum alignment of 8 or 16 the 16-byte chunk has room for one block only: no `a0` then)
+    let la0 = if M <= 4 { any_layout(3, 0) } else { core::alloc::Layout::new::<()>() };
     let Ok(a0) = bump.allocate(la0) else { return };
     let a0 = a0.cast::<u8>();
     let va0: u8 = kani::any();
-    kani::assume(la0.size() > 0);
-    unsafe { w1.write(addr(a0), va0) };
+    kani::assume(la0.size() > 0 || M > 4);
+    if la0.size() > 0 {
+        unsafe { w1.write(addr(a0), va0) };
+    }
     let lb = any_layout(5, 2);
     let Ok(b) = bump.allocate(lb) else { return };
     let b = b.cast::<u8>();
@@ -57,7 +60,7 @@ where
         (a1.map(|p| addr(p.cast())).unwrap_or(0), a2.map(|p| addr(p.cast())).unwrap_or(0))
     });
     set_budget(0);
-    kani::cover!(i1 != 0 && i2 != 0, "both inner allocations succeeded");
+    kani::cover!(i1 != 0 && i2 != 0, "[room] both inner allocations succeeded");
     assert!(addr(bump.stats().current_chunk().unwrap().bump_position()) % M == 0, "C18: position not a multiple of the outer minimum alignment after aligned returned");
     // blocks before / inside / after stay disjoint; the block allocated before is intact
     let l3 = any_layout(8, 3);
@@ -73,7 +76,9 @@ where
     if after != 0 {
         assert!(disjoint(after, l3.size(), addr(a0), la0.size()), "C18/C01: block allocated after overlaps a live block allocated before the region");
     }
-    assert!(unsafe { w1.read(addr(a0)) } == va0, "C18: data of a live block allocated before the region changed");
+    if la0.size() > 0 {
+        assert!(unsafe { w1.read(addr(a0)) } == va0, "C18: data of a live block allocated before the region changed");
+    }
     if dealloc_b {
             kani::cover!(true, "END: harness ran to completion");
         return;
